@@ -593,6 +593,9 @@ class MemOrchestrator(BaseOrchestrator):
         self, runner_id: str, start_time: datetime, end_time: datetime
     ) -> None:
         """Record the latest atomic service execution window for a runner."""
+        if runner_id not in self.runner_creation_time:
+            # no heartbeat row for this runner: nothing to update (SQLite: UPDATE ... WHERE runner_id = ?)
+            return
         self.runner_last_service_start[runner_id] = start_time
         self.runner_last_service_end[runner_id] = end_time
 
